@@ -8,7 +8,8 @@ This file is the *enumeration* behind property C05.  It contains
   and the cw4-group contract the splits contract consults) and every `execute` message kind (`MsgKind`,
   one constructor per JSON variant name; `update_ownership` is split into its three `cw_ownable` actions and
   the two sudo-only messages `update_params` / `update_status` are listed so that "a user sends the sudo
-  message through `execute`" is a row of the table too);
+  message through `execute`" is a row of the table too; `other` stands for any variant the table does not list —
+  default-deny, see `principal`);
 * `principal : Kind → MsgKind → PrincipalClass` — read off the `execute` dispatch of every contract
   (see /verif/docs/C05.md for the line-by-line map);
 * the authorisation-relevant state `AuthState` (minter admin, cw_ownable owner / pending owner / expiry,
@@ -97,6 +98,10 @@ inductive MsgKind where
   | createMinter
   -- sudo-only messages (sent through `execute` they do not even parse)
   | updateParams | updateStatus
+  /-- any `ExecuteMsg` variant this table does not know (found at run time in the repo's JSON schema): default-deny —
+      it is treated as reserved to the contract's configuration principal (`principal` below), so a new public
+      message is reported with a failing input instead of being invisible -/
+  | other
 deriving DecidableEq, Repr
 
 def MsgKind.all : List MsgKind :=
@@ -108,7 +113,7 @@ def MsgKind.all : List MsgKind :=
    .freezeTokenMetadata, .updateTokenMetadata, .enableUpdatable,
    .addMembers, .removeMembers, .increaseMemberLimit, .updateAdmins, .freeze, .addStage, .removeStage, .updateStageConfig,
    .updateAdmin, .distribute, .updateMembers, .addHook, .removeHook,
-   .createMinter, .updateParams, .updateStatus]
+   .createMinter, .updateParams, .updateStatus, .other]
 
 /-! ## Principal classes -/
 
@@ -152,6 +157,7 @@ def minterPrincipal : MinterFamily → MsgKind → PrincipalClass
     | .setWhitelist | .updateMintPrice | .updateStartTime | .updateStartTradingTime | .updatePerAddressLimit
     | .mintTo | .mintFor | .burnRemaining | .updateDiscountPrice | .removeDiscountPrice => minterAdmin
     | .updateStatus => sudoOnly
+    | .other => minterAdmin
     | _ => nobody
   | .openEdition, m =>
     match m with
@@ -159,6 +165,7 @@ def minterPrincipal : MinterFamily → MsgKind → PrincipalClass
     | .setWhitelist | .updateMintPrice | .updateStartTime | .updateEndTime | .updateStartTradingTime
     | .updatePerAddressLimit | .mintTo | .burnRemaining => minterAdmin
     | .updateStatus => sudoOnly
+    | .other => minterAdmin
     | _ => nobody
   | .tokenMerge, m =>
     match m with
@@ -166,11 +173,13 @@ def minterPrincipal : MinterFamily → MsgKind → PrincipalClass
     | .purge | .shuffle => anyone
     | .updateStartTime | .updateStartTradingTime | .updatePerAddressLimit | .mintTo | .mintFor | .burnRemaining => minterAdmin
     | .updateStatus => sudoOnly
+    | .other => minterAdmin
     | _ => nobody
   | .base, m =>
     match m with
     | .mint | .updateStartTradingTime => creator
     | .updateStatus => sudoOnly
+    | .other => creator
     | _ => nobody
 
 def collPrincipal : CollKind → MsgKind → PrincipalClass
@@ -179,6 +188,7 @@ def collPrincipal : CollKind → MsgKind → PrincipalClass
     | .mint => collMinter
     | .burn => anyone
     | .updateCollectionInfo | .freezeCollectionInfo => creator
+    | .other => creator
     | _ => nobody
   | k, m =>
     match m with
@@ -189,6 +199,7 @@ def collPrincipal : CollKind → MsgKind → PrincipalClass
     | .transferOwnership | .renounceOwnership => if k = .updatable then nobody else collMinter
     | .acceptOwnership => if k = .updatable then nobody else pendingOwner
     | .freezeTokenMetadata | .updateTokenMetadata | .enableUpdatable => if k = .updatable then creator else nobody
+    | .other => creator
     | _ => nobody
 
 def wlPrincipal : WlKind → MsgKind → PrincipalClass
@@ -202,6 +213,7 @@ def wlPrincipal : WlKind → MsgKind → PrincipalClass
     | .increaseMemberLimit => if k = .merkle ∨ k = .tieredMerkle then nobody else anyone
     | .addStage | .removeStage => if k = .tiered ∨ k = .tieredFlex then wlAdmin else nobody
     | .updateStageConfig => if k = .tiered ∨ k = .tieredFlex ∨ k = .tieredMerkle then wlAdmin else nobody
+    | .other => wlAdmin
     | _ => nobody
 
 /-- THE TABLE: (contract kind, message kind) ↦ who may send it. -/
@@ -216,15 +228,28 @@ def principal : Kind → MsgKind → PrincipalClass
   | .splits, m => match m with
     | .updateAdmin => splitsAdmin
     | .distribute => splitsAdminElseMember
+    | .other => splitsAdmin
     | _ => nobody
   | .group, m => match m with
     | .updateAdmin | .updateMembers | .addHook | .removeHook => groupAdmin
+    | .other => groupAdmin
     | _ => nobody
 
 /-- who may `instantiate` a contract of this kind -/
 def instPrincipal : Kind → PrincipalClass
   | .minter _ | .collection _ => contractOnly
   | _ => anyone
+
+/-- some caller can be authorised for a row of this class through `execute` -/
+def reservable : PrincipalClass → Bool
+  | .anyone | .nobody | .sudoOnly => false
+  | _ => true
+
+/-- the principal of a row of this class can change hands (hand-over messages), or — `minterAdmin` — can come apart from
+the collection creator it was equal to at creation: the guard has to keep working afterwards -/
+def handsOver : PrincipalClass → Bool
+  | .minterAdmin | .creator | .collMinter | .wlAdmin | .wlAdminMutable | .splitsAdmin | .splitsAdminElseMember | .groupAdmin => true
+  | _ => false
 
 /-- a message kind is *privileged* on a contract kind when the table reserves it -/
 def privileged (k : Kind) (m : MsgKind) : Bool := principal k m != anyone
@@ -411,6 +436,7 @@ def MsgKind.name : MsgKind → String
   | .updateAdmin => "update_admin" | .distribute => "distribute" | .updateMembers => "update_members"
   | .addHook => "add_hook" | .removeHook => "remove_hook"
   | .createMinter => "create_minter" | .updateParams => "update_params" | .updateStatus => "update_status"
+  | .other => "other"
 
 def PrincipalClass.name : PrincipalClass → String
   | .minterAdmin => "minter_admin" | .collMinter => "coll_minter" | .pendingOwner => "pending_owner"
